@@ -149,6 +149,16 @@ func C20(tier string) int {
 	addQ(`count(from reports where anyOf(roles) = "a" sort by f, b desc limit 1) = 0`, []string{"reports", "roles", "f", "b"})
 	addQ(`count(from reports where count(from reports where true sort by nn) > 0 sort by id, s) > 0`, []string{"reports", "nn", "s"})
 	addQ(`not isEmpty(from reports where i > 4 sort by id, f)`, []string{"reports", "i", "f"})
+	// a symbol and a longer symbol that begins with its name (each is judged on its own)
+	addQ(`boss = "e1" or boss.s = "a"`, []string{"boss", "boss.s"})
+	addQ(`boss.s = "a" or boss = "e1"`, []string{"boss.s", "boss"})
+	addQ(`boss != null and boss.i > 4 sort by boss.s`, []string{"boss", "boss.i", "boss.s"})
+	addQ(`boss = "e1" sort by boss.s desc`, []string{"boss", "boss.s"})
+	addQ(`not isEmpty(reports) and anyOf(reports.i) = 4`, []string{"reports", "reports.i"})
+	addQ(`anyOf(reports.i) = 4 and not isEmpty(reports)`, []string{"reports.i", "reports"})
+	addQ(`count(reports) > 0 or count(reports.s) > 0 or anyOf(reports.roles) = "a"`, []string{"reports", "reports.s", "reports.roles"})
+	addQ(`s = "a" and boss.s = "a" and anyOf(reports.s) = "a"`, []string{"s", "boss.s", "reports.s"})
+	addQ(`i = 4 or boss.i = 4 sort by i, boss.i`, []string{"i", "boss.i"})
 	// set functions and integer symbols met by NON-integer operands (the typer wraps them in conversion nodes)
 	addQ(`count(roles) > 1.5`, []string{"roles"})
 	addQ(`count(roles) in [0.5, 2]`, []string{"roles"})
